@@ -25,7 +25,9 @@ RULE = ('One case = one valid document derived from a generated chart (optional 
         'accepted and pass the independent soundness checker. Then every applicable single fault at every state/transition '
         'position is injected (exhaustive over positions for that document) and, in the thorough tier, random pairs and '
         'triples of faults: each faulted document must raise StatechartError. Non-trivial = distinct (fault kind, kind of the '
-        'state it is applied to) pairs exercised; every fault kind must be exercised.')
+        'state it is applied to) pairs exercised; every fault kind must be exercised.  Fault kinds include sections of the wrong shape '
+        '(statechart / root state empty, list, scalar; scalar items in lists).  Thorough tier: random combinations of 2-3 faults, judged '
+        'with a document-level reference validator (faults that cancel each other demand nothing).')
 ASSUMPTIONS = ['not judged (ambiguous against the statement): initial on non-compound / memory on non-history states, empty child '
                'lists, name: null, float priorities, children under a final state, YAML syntax errors']
 FAULTS = ['dup name', 'dup name root', 'transitions on final', 'transitions on history', 'unknown target', 'empty target',
